@@ -114,7 +114,8 @@ pub fn split_compressed_records(data: &[u8]) -> Vec<Record> {
 
     let mut position = 0;
     loop {
-        if position >= data.len() {
+        // Stop when fewer bytes remain than a record size prefix (e.g. a truncated download)
+        if data.len() - position < 4 {
             break;
         }
 
@@ -122,10 +123,11 @@ pub fn split_compressed_records(data: &[u8]) -> Vec<Record> {
         record_size.copy_from_slice(&data[position..position + 4]);
         let record_size = i32::from_be_bytes(record_size).unsigned_abs() as usize;
 
-        records.push(Record::from_slice(
-            &data[position..position + record_size + 4],
-        ));
-        position += record_size + 4;
+        // A size prefix larger than the remaining data yields a final, truncated record
+        let record_end = (position + record_size + 4).min(data.len());
+
+        records.push(Record::from_slice(&data[position..record_end]));
+        position = record_end;
     }
 
     records
